@@ -365,6 +365,13 @@ class Interp:
                     pass      # hybrid_array::Array is a transparent wrapper: `.0` is the inner array
                 else:
                     raise Undecided("field %s of %s value at %r" % (s[1], v[0], tg))
+            elif s[0] == "dc":
+                if v[0] != "symres":
+                    raise Undecided("downcast of %s value at %r" % (v[0], tg))
+                if s[1] != 0 or i + 1 >= len(path) or path[i + 1] != ("f", 0):
+                    raise Undecided("payload of the Err variant of a symbolic Result")
+                # the value inside Ok(..) of a symbolic conversion result
+                return self._walk(st, ("symval", ("okval", v[1])), path[i + 2:], tg)
             elif s[0] == "br":
                 if v[0] != "bytes":
                     raise Undecided("byte range of %s value at %r" % (v[0], tg))
@@ -478,7 +485,12 @@ class Interp:
                 else:
                     tg = tg.ext(("f", nm))
             elif k == "downcast":
-                pass
+                try:
+                    dv = self.load(st, tg, log=False)
+                except Undecided:
+                    dv = None
+                if dv is not None and dv[0] == "symres":
+                    tg = tg.ext(("dc", e.get("variant")))      # which variant's payload is meant
             elif k == "index":
                 iv = self.load(st, Target(fr.cell(e["local"])))
                 if iv[0] != "size":
@@ -646,7 +658,7 @@ class Interp:
                 if v[1] == "core::cmp::Ordering":
                     return vsize({0: 255, 1: 0, 2: 1}[v[2]])      # i8 discriminants -1, 0, 1 as switch bits
                 return vsize(v[2])
-            if v[0] == "symopt":
+            if v[0] in ("symopt", "symres"):
                 return ("symdisc", v)
             raise Undecided("discriminant of %s" % (v[0],))
         if k == "aggregate":
@@ -1069,6 +1081,14 @@ class Interp:
                 s1 = st.fork()
                 s1.conds.append(("opaque", "disc", repr(d[1]), a))
                 res.append(("goto", s1, b))
+            # `if let Some(x) = ..`: the other variant of the two leaves through `otherwise`
+            left = sorted({0, 1} - {a for a, _ in arms})
+            if left and t.get("otherwise") is not None:
+                if len(left) != 1:
+                    raise Undecided("switch on a symbolic discriminant without explicit arms")
+                s1 = st.fork()
+                s1.conds.append(("opaque", "disc", repr(d[1]), left[0]))
+                res.append(("goto", s1, t["otherwise"]))
             return res
         raise Undecided("switch on %s" % (d[0],))
 
